@@ -15,7 +15,8 @@ Inductive gv :=
 | Def (d : list adef)                                          (* a payload definition dict *)
 | Tup (l : list gv)                                            (* a tuple *)
 | Call (f : string) (pos : list gv) (kw : list (string * gv))  (* the result of a call this layer does not look into *)
-| Fn (name : string).                                          (* a function object: a variant selector, by name *)
+| Fn (name : string)                                           (* a function object: a variant selector, by name *)
+| Exn (e : exn).                                               (* a caught exception object (`except ... as err`) *)
 
 Definition bytes_of_string (s : string) : bytes := map N_of_ascii (list_ascii_of_string s).
 Definition string_of_bytes (b : bytes) : string := string_of_list_ascii (map ascii_of_N b).
@@ -91,6 +92,7 @@ Definition g_truth (a : gv) : bool :=
   | Tup l => match l with [] => false | _ => true end
   | Call _ _ _ => true
   | Fn _ => true
+  | Exn _ => true
   end.
 
 (* x in (a, b, ...) *)
@@ -274,3 +276,87 @@ Definition run_call (c : gv) : result msg :=
       end
   | _ => Raise EOther
   end.
+
+(* ==== methods that read a stream (UBXReader): the same subset in a state-and-exception monad ====
+   W is everything such a method can touch besides its return value: the stream, the log of calls made on the logger /
+   the error handler, and the local variables that are assigned inside a `try` body (Python keeps what was assigned
+   before an exception; a `let` would lose it, so those locals live in a store). *)
+Definition IO (W A : Type) := W -> result A * W.
+Definition retIO {W A} (a : A) : IO W A := fun w => (Ok a, w).
+Definition raiseIO {W A} (e : exn) : IO W A := fun w => (Raise e, w).
+Definition bindIO {W A B} (m : IO W A) (k : A -> IO W B) : IO W B :=
+  fun w => match m w with (Ok a, w') => k a w' | (Raise e, w') => (Raise e, w') end.
+Definition liftR {W A} (r : result A) : IO W A := fun w => (r, w).
+Notation "'doM' x <- m ; k" := (bindIO m (fun x => k))
+  (at level 200, x name, m at level 100, k at level 200, right associativity).
+
+(* try: m  except <classes in l> as err: h err *)
+Definition g_catchIO {W A} (m : IO W A) (l : list exn) (h : exn -> IO W A) : IO W A :=
+  fun w => match m w with
+           | (Raise e, w') => if existsb (exn_eqb e) l then h e w' else (Raise e, w')
+           | r => r
+           end.
+
+(* the state of a reader method: stream, effects (newest first), store of try-assigned locals *)
+Record world (S : Type) := { w_stream : S; w_eff : list (string * list gv); w_store : list (string * gv) }.
+Arguments w_stream {S}. Arguments w_eff {S}. Arguments w_store {S}.
+
+Section ReaderIO.
+Context {S : Type}.
+Variable rd : nat -> S -> bytes * S.       (* self._stream.read(n) *)
+Variable rdl : S -> bytes * S.             (* self._stream.readline() *)
+
+Definition io_read (n : gv) : IO (world S) gv := fun w =>
+  match n with
+  | V (PInt z) =>
+      if z <? 0 then (Raise EOther, w)     (* read(-1) reads everything: not something these methods do *)
+      else let '(d, s') := rd (Z.to_nat z) (w_stream w) in
+           (Ok (gbytes d), {| w_stream := s'; w_eff := w_eff w; w_store := w_store w |})
+  | _ => (Raise EType, w)
+  end.
+Definition io_readline : IO (world S) gv := fun w =>
+  let '(d, s') := rdl (w_stream w) in
+  (Ok (gbytes d), {| w_stream := s'; w_eff := w_eff w; w_store := w_store w |}).
+(* a call on the logger / the error handler: recorded, returns None *)
+Definition io_eff (name : string) (args : list gv) : IO (world S) gv := fun w =>
+  (Ok gnone, {| w_stream := w_stream w; w_eff := (name, args) :: w_eff w; w_store := w_store w |}).
+Definition io_set (x : string) (v : gv) : IO (world S) gv := fun w =>
+  (Ok gnone, {| w_stream := w_stream w; w_eff := w_eff w; w_store := (x, v) :: w_store w |}).
+Definition io_get (x : string) : IO (world S) gv := fun w =>
+  match assoc_s x (w_store w) with Some v => (Ok v, w) | None => (Raise EUnbound, w) end.
+End ReaderIO.
+
+(* (a, b) = e *)
+Definition g_unpack2 (a : gv) : result (gv * gv) :=
+  match a with Tup [x; y] => Ok (x, y) | _ => Raise EType end.
+(* a | b, a << b, ~a on ints *)
+Definition g_bor (a b : gv) : result gv :=
+  match a, b with V (PInt x), V (PInt y) => Ok (gint (Z.lor x y)) | _, _ => Raise EType end.
+Definition g_shl (a b : gv) : result gv :=
+  match a, b with V (PInt x), V (PInt y) => if y <? 0 then Raise EValue else Ok (gint (Z.shiftl x y)) | _, _ => Raise EType end.
+
+(* control flow of a statement block in the monadic translation *)
+Inductive ctl := CNormal | CRet (v : gv) | CCont | CBreak.
+Definition seqIO {W} (a b : IO W ctl) : IO W ctl :=
+  doM c <- a; match c with CNormal => b | _ => retIO c end.
+(* while cond: body   (fuel: a bound on the number of iterations; exhausted = EOther, never a normal-looking result) *)
+Fixpoint g_while {W} (fuel : nat) (cond : IO W bool) (body : IO W ctl) : IO W ctl :=
+  match fuel with
+  | O => raiseIO EOther
+  | Datatypes.S f =>
+      doM c <- cond;
+      if c then
+        doM r <- body;
+        match r with
+        | CNormal | CCont => g_while f cond body
+        | CBreak => retIO CNormal
+        | CRet v => retIO (CRet v)
+        end
+      else retIO CNormal
+  end.
+(* what a function whose body ran to `c` returns *)
+Definition fn_result {W} (m : IO W ctl) : IO W gv :=
+  doM c <- m; match c with CRet v => retIO v | _ => retIO gnone end.
+(* raise <a caught exception object> *)
+Definition g_reraise {W A} (a : gv) : IO W A :=
+  match a with Exn e => raiseIO e | _ => raiseIO EType end.
